@@ -16,6 +16,21 @@ export async function resolve(specifier, context, nextResolve) {
       return { url: STUB, shortCircuit: true, format: 'module' }
     }
   }
+  // tmpl/index.ts (template engine: update-path-tree construction from DataChange lists, binding-map dispatch) is real
+  // too; its only value imports are ./proc_gen_wrapper (real) and ./native_rendering (stub)
+  if (parent.endsWith('/src/tmpl/index.ts')) {
+    if (specifier === './proc_gen_wrapper') {
+      const url = new URL(specifier + '.ts', parent).href
+      return { url, shortCircuit: true, format: 'module-typescript' }
+    }
+    if (specifier.startsWith('.')) {
+      return { url: STUB, shortCircuit: true, format: 'module' }
+    }
+  }
+  if (specifier.endsWith('/src/tmpl/index.ts')) {
+    const r = await nextResolve(specifier, context)
+    return { ...r, format: 'module-typescript', shortCircuit: true }
+  }
   if (specifier.endsWith('/src/tmpl/proc_gen_wrapper.ts')) {
     const r = await nextResolve(specifier, context)
     return { ...r, format: 'module-typescript', shortCircuit: true }
